@@ -100,7 +100,7 @@ func runC08(r *Report, tier string) {
 					b, ok := byteArr(u)
 					rt := deref(fn.Signature.Recv().Type())
 					_, isMap := rt.Underlying().(*types.Map)
-					empty := x.facts.has(Fact{tEq(tInt(0), tLen(T0())), true})
+					empty := x.facts.holdsEmpty(T0())
 					if !(ok && len(b) == 1 && b[0] == 0xa0 && isMap && empty && isNamed(rt, cosePath, "UnprotectedHeader")) {
 						okAll, why = false, fmt.Sprintf("hand-assembled bytes % x are not the canonical empty map of an empty unprotected header", b)
 					}
